@@ -116,10 +116,10 @@ def angle_obj(kind, value):
 
 
 def obj_dec(x):
-    if isinstance(x, float):
+    if type(x) is float:      # DECAngle subclasses float: it must go through .dec() like the other classes
         return x
     try:
-        return x.dec()
+        return float(x.dec())
     except ValueError:
         raise Discard()
 
